@@ -90,7 +90,9 @@ type Conn struct {
 	WriteErr         error // next Write fails with this error ...
 	WriteErrN        int   // ... after accepting this many bytes
 	OnWrite          func(c *Conn, data []byte)
-	OnWriteBegin     func(c *Conn)        // called when Write is entered, before it is scheduled
+	OnWriteBegin     func(c *Conn) // called when Write is entered, before it is scheduled
+	PartialWriteAt   int           // >0: the n-th Write on this end is cut short by a stalled peer: some bytes go out, then the write deadline strikes
+	writeCount       int
 	YieldSetDeadline bool                 // SetReadDeadline is a scheduling point too
 	OnReadBegin      func(c *Conn)        // called when Read is entered
 	OnReadEnd        func(c *Conn)        // called when Read returns
@@ -430,6 +432,27 @@ func (c *Conn) Write(p []byte) (int, error) {
 		s.logLocked("write %s deadline-exceeded", c.Name)
 		c.unlock()
 		return 0, os.ErrDeadlineExceeded
+	}
+	c.writeCount++
+	if c.PartialWriteAt > 0 && c.writeCount == c.PartialWriteAt && len(p) > 1 {
+		// the peer stops reading in the middle of this write: part of it is delivered, the rest waits until the write deadline
+		k := 1 + c.choose(len(p)-1)
+		data := append([]byte(nil), p[:k]...)
+		c.out.segs = append(c.out.segs, seg{data: data, at: time.Now()})
+		c.record(IORec{Kind: "write", N: k, Err: os.ErrDeadlineExceeded, Data: data})
+		s.logLocked("write %s partial n=%d of %d then deadline", c.Name, k, len(p))
+		s.mixFP("wP")
+		wdl := c.wdl
+		c.unlock()
+		if !wdl.IsZero() {
+			s.ParkL("wr:"+c.Name, "write-blocked", c.locker(), func(now time.Time) (bool, Reason, time.Time) {
+				if !now.Before(wdl) || c.closed {
+					return true, Ready, time.Time{}
+				}
+				return false, Ready, wdl
+			})
+		}
+		return k, os.ErrDeadlineExceeded
 	}
 	if c.WriteErr != nil {
 		n := c.WriteErrN
